@@ -71,7 +71,16 @@ func (o *signalHandler) addSignalUser(userID uint64, signalID, messageID uint32,
 		return false, true
 	}
 	q := make(chan<- *net.Message)
+	// refused is set (under signalsMutex) when the registration is not
+	// accepted: the handler created for it has no user to unregister.
+	refused := false
 	cl := func(err error) {
+		o.signalsMutex.RLock()
+		skip := refused
+		o.signalsMutex.RUnlock()
+		if skip {
+			return
+		}
 		// unregister user on disconnection
 		o.removeSignalUser(userID, from)
 	}
@@ -81,6 +90,7 @@ func (o *signalHandler) addSignalUser(userID uint64, signalID, messageID uint32,
 
 	for _, user := range o.signals {
 		if user.userID == userID {
+			refused = true
 			o.signalsMutex.Unlock()
 			// the registration is refused: drop the handler just
 			// created, the existing user keeps its own.
